@@ -282,3 +282,71 @@ Example C07_nullable_shapes :
   BindK17.nullty_code OptProj.TyUnionNone = true /\ BindK17.nullty_code OptProj.TyAny = true /\
   BindK17.nullty_code (OptProj.TyAnnotated OptProj.TyPlain) = false /\ BindK17.nullty_code OptProj.TyPlain = false.
 Proof. repeat split; reflexivity. Qed.
+
+(* ---- (T) defaults and argument assembly are the translated source (kernel K107a = CodeBuilder.get_field_default,
+        the in_kwargs flag of FieldUnpackerCodeBlockBuilder.build, and the bodies of the two loops of
+        _add_unpack_method_lines that skip init=False fields, detect kw_only and sort the fields into
+        pos_args / kw_args / **kwargs; regenerated every run) ---- *)
+From Verif Require BindK107a.
+From VerifGen Require K107a.
+
+(* the default the field block works with: get_field_default run on the Field the builder finds (or on the class
+   namespace) is MISSING exactly when the model says "no default", None exactly when the model says "default None";
+   the block is passed through **kwargs exactly when it has a default *)
+Theorem C07_default_is_code : forall m,
+  (exists v,
+     K107a.get_field_default (BindK107a.enc_field (dc_field m)) (BindK107a.enc_ns (m_ns m)) KNone (KBool false) = Ok v
+     /\ k_is v KMissing = negb (has_dflt (seen_default m))
+     /\ k_is v KNone = dflt_is_none (seen_default m))
+  /\ BindK107a.code_in_kwargs m = Ok (KBool (has_dflt (seen_default m))).
+Proof. intros m. split; [exact (BindK107a.default_is_code m)|exact (BindK107a.in_kwargs_is_code m)]. Qed.
+Print Assumptions C07_default_is_code.
+
+(* the translated loops, run over ANY layout with unique member names the way _add_unpack_method_lines runs them
+   (BindK107a.code_assembly), compute: **kwargs is passed iff some field has a default; kw_args / pos_args are, in
+   order, the names that BindK107a.passing_of marks keyword / positional; that marking is the one of the model's
+   generated from_dict (Bind.plan): whenever no field block raises, the non-skipped fields are passed exactly so.
+   `st` is the variant of the in_kwargs flag that the translated loop body implements: sticky (true: the code as
+   it is) or reset per block (false: seeded change C07-1); both decode identically on the domain, so an equivalent
+   rewrite of that flag keeps this theorem provable while any other change of the loops breaks it *)
+Theorem C07_assembly_is_code : exists st,
+  (forall L, nodupb (map m_name L) = true ->
+     BindK107a.code_assembly L =
+     Ok (KTuple [KBool (existsb (fun x => BindK107a.is_kwargs (snd x)) (BindK107a.passing_of st L));
+                 BindK107a.enc_names (BindK107a.names_with BindK107a.is_kw (BindK107a.passing_of st L));
+                 BindK107a.enc_names (BindK107a.names_with BindK107a.is_pos (BindK107a.passing_of st L))]))
+  /\ (forall conv nba L d pl,
+        plan conv nba st L false false d = inr pl ->
+        filter (fun x => negb (BindK107a.is_skip (snd x))) (map (fun t => (fst (fst t), snd (fst t))) pl)
+        = BindK107a.passing_of st L)
+  /\ (forall conv nba L d c, layout_ok L = true -> view_ok L = true ->
+        decode conv nba st L d c = decode conv nba true L d c).
+Proof. exact BindK107a.assembly_is_code. Qed.
+Print Assumptions C07_assembly_is_code.
+
+(* one pass of the translated assembly loop body, as a statement about the source: a block with a default goes to
+   **kwargs (neither list grows), otherwise the name is appended to kw_args iff it is in kw_only_fields or the
+   flag is set (variant st), else to pos_args *)
+Theorem C07_arg_step_is_code : exists st, BindK107a.arg_step_spec st.
+Proof. exact BindK107a.arg_step_is_code. Qed.
+Print Assumptions C07_arg_step_is_code.
+
+(* one pass of the translated kw_only detection: an init=False field is dropped and leaves the state alone; a kept
+   field is keyword-only iff missing_kw_only is already set, or its Field is missing / has no processed kw_only
+   (which also sets missing_kw_only for all later fields), or kw_only is true *)
+Theorem C07_kw_step_is_code : forall m mk S,
+  K107a.kw_step (BindK107a.enc_field (dc_field m)) (KStr (m_name m)) (KBool mk) (BindK107a.enc_names S) =
+  let kwo := mk || match seen_kw m with Some b => b | None => true end in
+  let mk' := mk || match seen_kw m with None => true | Some _ => false end in
+  Ok (KTuple [KBool (seen_init m);
+              KBool (if seen_init m then mk' else mk);
+              BindK107a.enc_names (if seen_init m && kwo && negb (mem (m_name m) S) then S ++ [m_name m] else S)]).
+Proof. exact BindK107a.kw_step_is_code. Qed.
+Print Assumptions C07_kw_step_is_code.
+
+(* non-vacuity: required a, init=False e, kw_only b, defaulted c, kw_only d -> cls(__a, b=__b, d=__d, **kwargs) *)
+Example C07_assembly_example :
+  BindK107a.code_assembly BindK107a.ex_layout
+  = Ok (KTuple [KBool true; BindK107a.enc_names ["b"; "d"]; BindK107a.enc_names ["a"]])
+  /\ BindK107a.names_with BindK107a.is_kwargs (BindK107a.passing_of true BindK107a.ex_layout) = ["c"].
+Proof. split; vm_compute; reflexivity. Qed.
